@@ -1,6 +1,7 @@
 //! Reference models — the trusted base of the checks. Written from the MPD protocol reference and
 //! MPD's sources, independent of the code under test.
 pub mod filter;
+pub mod server;
 pub mod tokenizer;
 pub mod wire;
 
